@@ -335,6 +335,137 @@ theorem remapPostings_closed {α} (segs : List (Segment α)) (s : Nat) (seg : Se
     · simp only [h]
       exact ih
 
+/-! ### per-document data -/
+
+theorem liveDocs_replicate_true {α} (l : List α) :
+    liveDocs l (List.replicate l.length true) = l := by
+  induction l with
+  | nil => rfl
+  | cons a as ih => simp [List.replicate_succ, liveDocs, ih]
+
+theorem liveDocs_length {α} (docs : List α) (al : List Bool) (h : docs.length = al.length) :
+    (liveDocs docs al).length = al.count true := by
+  induction docs generalizing al with
+  | nil => cases al <;> simp_all [liveDocs]
+  | cons d ds ih =>
+    cases al with
+    | nil => simp at h
+    | cons a as =>
+      simp at h
+      cases a <;> simp [liveDocs, ih as h]
+
+theorem liveDocs_append {α} (d1 d2 : List α) (a1 a2 : List Bool) (h : d1.length = a1.length) :
+    liveDocs (d1 ++ d2) (a1 ++ a2) = liveDocs d1 a1 ++ liveDocs d2 a2 := by
+  induction d1 generalizing a1 with
+  | nil => cases a1 <;> simp_all [liveDocs]
+  | cons d ds ih =>
+    cases a1 with
+    | nil => simp at h
+    | cons a as =>
+      simp at h
+      cases a <;> simp [liveDocs, ih as h]
+
+theorem liveDocs_flatten {α} (segs : List (Segment α))
+    (hlen : ∀ s ∈ segs, s.docs.length = s.alive.length) :
+    liveDocs (segs.map (·.docs)).flatten (segs.map (·.alive)).flatten
+      = (segs.map fun s => liveDocs s.docs s.alive).flatten := by
+  induction segs with
+  | nil => rfl
+  | cons x rest ih =>
+    simp only [List.map_cons, List.flatten_cons]
+    rw [liveDocs_append _ _ _ _ (hlen x (by simp)), ih (fun s hs => hlen s (by simp [hs]))]
+
+theorem filterMap_congr' {α β} (f g : α → Option β) (l : List α) (h : ∀ x ∈ l, f x = g x) :
+    l.filterMap f = l.filterMap g := by
+  induction l with
+  | nil => rfl
+  | cons a as ih =>
+    simp only [List.filterMap_cons, h a (by simp)]
+    rw [ih (fun x hx => h x (by simp [hx]))]
+
+theorem liveIdsFrom_filterMap {α} (docs : List α) (al : List Bool) (k : Nat)
+    (h : docs.length = al.length) :
+    (liveIdsFrom k al).filterMap (fun d => docs[d - k]?) = liveDocs docs al := by
+  induction al generalizing docs k with
+  | nil => cases docs <;> simp_all [liveIdsFrom, liveDocs]
+  | cons a as ih =>
+    cases docs with
+    | nil => simp at h
+    | cons d ds =>
+      simp at h
+      have step : (liveIdsFrom (k + 1) as).filterMap (fun x => (d :: ds)[x - k]?) = liveDocs ds as := by
+        rw [← ih ds (k + 1) h]
+        apply filterMap_congr'
+        intro x hx
+        have := ((liveIdsFrom_mem as (k + 1) x).1 hx).1
+        have e : x - k = (x - (k + 1)) + 1 := by omega
+        rw [e]; simp
+      cases a
+      · simpa [liveIdsFrom, liveDocs] using step
+      · simp only [liveIdsFrom, if_true, List.filterMap_cons, Nat.sub_self, List.getElem?_cons_zero,
+          liveDocs]
+        rw [step]
+
+theorem copyDocs_newToOldFrom {α} (pre rest : List (Segment α))
+    (hlen : ∀ s ∈ rest, s.docs.length = s.alive.length) :
+    copyDocs (pre ++ rest) (newToOldFrom pre.length rest)
+      = (rest.map fun s => liveDocs s.docs s.alive).flatten := by
+  induction rest generalizing pre with
+  | nil => simp [newToOldFrom, copyDocs]
+  | cons x rest' ih =>
+    simp only [newToOldFrom, copyDocs, List.filterMap_append, List.map_cons, List.flatten_cons]
+    congr 1
+    · rw [List.filterMap_map]
+      have := liveIdsFrom_filterMap x.docs x.alive 0 (hlen x (by simp))
+      rw [← this]
+      apply filterMap_congr'
+      intro d _
+      simp [Function.comp]
+    · have := ih (pre ++ [x]) (fun s hs => hlen s (by simp [hs]))
+      simp only [copyDocs, List.length_append, List.length_singleton, List.append_assoc,
+        List.singleton_append] at this
+      exact this
+
+/-- per-document data of the merged segment = live docs of the sources in source order -/
+theorem mergeModel_docs {α} (segs : List (Segment α))
+    (hlen : ∀ s ∈ segs, s.docs.length = s.alive.length) :
+    (dump (mergeModel segs)).docs = (mergeSpec segs).docs := by
+  have h := copyDocs_newToOldFrom [] segs hlen
+  simp only [List.nil_append, List.length_nil] at h
+  have hl : (copyDocs segs (newToOld segs)).length = (newToOld segs).length := by
+    rw [newToOld, h, newToOldFrom_length, List.length_flatten, List.map_map]
+    congr 1
+    apply List.map_congr_left
+    intro s hs
+    exact liveDocs_length s.docs s.alive (hlen s hs)
+  show liveDocs (copyDocs segs (newToOld segs)) (List.replicate (newToOld segs).length true)
+    = liveDocs (segs.map (·.docs)).flatten (segs.map (·.alive)).flatten
+  rw [← hl, liveDocs_replicate_true, liveDocs_flatten segs hlen]
+  exact h
+
+/-- stacking whole stores of delete-free sources = copying their live docs one by one -/
+theorem mergedStore_eq {α} (stackable : Nat → Bool) (i : Nat) (segs : List (Segment α))
+    (hlen : ∀ s ∈ segs, s.docs.length = s.alive.length) :
+    mergedStore stackable i segs = (segs.map fun s => liveDocs s.docs s.alive).flatten := by
+  induction segs generalizing i with
+  | nil => rfl
+  | cons x rest ih =>
+    simp only [mergedStore, List.map_cons, List.flatten_cons]
+    rw [ih (i + 1) (fun s hs => hlen s (by simp [hs]))]
+    congr 1
+    by_cases hd : hasDeletes x.alive = true
+    · simp [hd]
+    · have hall : x.alive = List.replicate x.alive.length true := by
+        apply List.eq_replicate_iff.2 ⟨rfl, ?_⟩
+        intro b hb
+        cases b
+        · exfalso; apply hd; simp [hasDeletes]; exact hb
+        · rfl
+      by_cases hst : stackable i = true
+      · simp only [hd, hst, Bool.not_true, Bool.or_self, Bool.false_eq_true, if_false]
+        rw [hall, ← hlen x (by simp), liveDocs_replicate_true]
+      · simp [hst]
+
 /-! ### updater -/
 
 theorem endMergeWith_discard_epoch (b : Bool) (st : State) (r : Running) (h : r.epoch ≠ st.epoch) :
